@@ -346,7 +346,8 @@ def c03(c):
 
 C04_THEOREMS = ["Ctl.hIter_reject_of_not_le", "Ctl.rk23Iter_reject_of_not_le", "Ctl.rk23_reject_factor_nan", "Ctl.hIter_cases",
                 "Ctl.hSolve_protocol", "Ctl.dopri5_guard_progress", "Ctl.dop853_guard_progress", "Ctl.rk23_guard_progress",
-                "Ctl.hGuard_none_progress", "Ctl.dopri5Params_underflow", "Ctl.dop853Params_underflow", "c04_radau_nan_estimate"]
+                "Ctl.hGuard_none_progress", "Ctl.dopri5Params_underflow", "Ctl.dop853Params_underflow", "c04_radau_nan_estimate",
+                "Ctl.c04_finiteGuard_accept", "Ctl.c04_accept_finite_dopri5", "Ctl.c04_accept_finite_dop853", "Ctl.c04_accept_finite_rk23"]
 
 
 def c04(c):
